@@ -572,7 +572,34 @@ pub fn run(ws: &Ws, prop: &dyn Property, opts: &Opts) -> Result<i32, String> {
             ok &= o.violations.iter().any(|v| &v.class == class);
             digests.push(o.digest);
         }
-        if !ok || (digests[0] != digests[1] && digests[0] != 0 && digests[1] != 0) {
+        // A compiler under test that runs threads of its own (digest 0) interleaves them as the OS pleases: the
+        // simulator observes those threads but does not schedule them. A violation seen there may need several
+        // replays to show again; it is reported with the rate at which it did, never silently dropped, and it is a
+        // harness error only if it never shows again.
+        let mut intermittent: Option<(Case, usize, usize)> = None;
+        if !ok && digests.iter().all(|d| *d == 0) {
+            for candidate in [&min_case, case] {
+                let (mut hits, tries) = (0usize, 12usize);
+                for _ in 0..tries {
+                    let o = prop.evaluate(&exec, candidate)?;
+                    if o.digest != 0 {
+                        break;
+                    }
+                    if o.violations.iter().any(|v| &v.class == class) {
+                        hits += 1;
+                    }
+                }
+                if hits > 0 {
+                    intermittent = Some((candidate.clone(), hits, tries));
+                    break;
+                }
+            }
+        }
+        let (min_case, detail) = match &intermittent {
+            Some((c, hits, tries)) => (c.clone(), format!("{} [shown again in {hits} of {tries} replays: the compiler under test runs threads of its own, which the simulator observes but does not schedule]", if detail.is_empty() { viol.detail.clone() } else { detail.clone() })),
+            None => (min_case, detail),
+        };
+        if intermittent.is_none() && (!ok || (digests[0] != digests[1] && digests[0] != 0 && digests[1] != 0)) {
             let path = ws.verif.join("replays").join(format!("{}-unreproducible-{index}.json", prop.id()));
             let _ = std::fs::write(&path, serde_json::to_vec_pretty(&json!({"class": class, "detail": viol.detail, "case": case, "minimised": min_case})).unwrap());
             return Err(format!("candidate violation '{class}' (case {index}: {}) does not replay deterministically after minimisation; kept as {}", viol.detail, path.display()));
